@@ -36,11 +36,16 @@ func runC08(c *Ctx) {
 	c08R10(c)
 	c08R11(c)
 	c08R12(c)
+	c09R1As(c, c.R.Rule("R13", "K13 (= C09.R1) short and long processor replies: at each Process call boundary both directions of a length mismatch are diverted (padded / refused) before the reply is used positionally — a short reply is aligned before the end-to-start marking, not patched afterwards", 6))
+	c01R5As(c, c.R.Rule("R14", "K3 (= C01.R5) a group is settled in place only when it really has nothing left to process: Worker.doTaskAttempt hands a (sub-)batch to acker.Ack only when no task follows or THAT batch has no active records", 2))
 }
 
 // c08R12: the split ledger's member count follows "one live member replaced by len(recs)".
 func c08R12(c *Ctx) {
-	r := c.R.Rule("R12", "K9 split ledger arithmetic: Batch.SplitRecord creates a run with total 1 (the member being replaced) and adds exactly len(recs)-1 per split — the count complete() compares terminalCount with", 2)
+	c08R12As(c, c.R.Rule("R12", "K9 split ledger arithmetic: Batch.SplitRecord creates a run with total 1 (the member being replaced) and adds exactly len(recs)-1 per split — the count complete() compares terminalCount with", 2))
+}
+
+func c08R12As(c *Ctx, r string) {
 	fn := c.SSA(r, pFunnel, "(*Batch).SplitRecord")
 	totalF := c.Field(r, pFunnel, "splitRun", "total")
 	if fn == nil || totalF == nil {
@@ -86,7 +91,10 @@ func c08R12(c *Ctx) {
 
 // c08R11: a filtered message stays filtered across the fan-out (F21).
 func c08R11(c *Ctx) {
-	r := c.R.Rule("R11", "K8/K3 v1 filtered stays filtered: Message.Clone carries every Message field that DestinationNode.Run reads to decide on the write, and Destination.Write happens only on the !msg.filtered edge", 3)
+	c08R11As(c, c.R.Rule("R11", "K8/K3 v1 filtered stays filtered: Message.Clone carries every Message field that DestinationNode.Run reads to decide on the write, and Destination.Write happens only on the !msg.filtered edge", 3))
+}
+
+func c08R11As(c *Ctx, r string) {
 	msgT := c.Type(r, pStream, "Message")
 	clone := c.SSA(r, pStream, "(*Message).Clone")
 	run := c.SSA(r, pStream, "(*DestinationNode).Run")
